@@ -558,7 +558,12 @@ func (g *psGen) step() {
 		if m <= 0 {
 			m = 20
 		}
-		g.emit(strconv.Itoa(t.Small(m)))
+		size := t.Small(m)
+		if m >= 30 && t.Choose(12) == 0 {
+			// now and then a large object (a thousand elements and more)
+			size = 1000 + t.Choose(4000)
+		}
+		g.emit(strconv.Itoa(size))
 		k := t.Choose(3)
 		g.op([]string{"array", "string", "dict"}[k])
 		g.push([]kind{kA, kS, kD}[k])
@@ -677,6 +682,20 @@ func (g *psGen) step() {
 	})
 	add(1, func() { g.op("mark"); g.push(kM) })
 	add(1, func() { g.op("matrix"); g.push(kA) })
+	// an operator object (not a name, not a procedure) handed to exec
+	add(1, func() {
+		k := t.Choose(3)
+		if t.Bool(1, 2) {
+			g.emit("/" + []string{"count", "currentdict", "mark"}[k])
+			g.op("load")
+		} else {
+			g.op("systemdict")
+			g.emit("/" + []string{"count", "currentdict", "mark"}[k])
+			g.op("get")
+		}
+		g.op("exec")
+		g.push([]kind{kI, kD, kM}[k])
+	})
 	// mark ... cleartomark
 	add(1, func() {
 		g.op("mark")
@@ -1290,6 +1309,19 @@ func wrapEexec(t *sim.Tape, head, body, trailer []byte, binary bool, damage bool
 	var cipher []byte
 	for try := 0; ; try++ {
 		iv := t.Bytes(4)
+		if binary && damage && try == 0 && t.Choose(8) == 0 {
+			// a binary section whose first four bytes happen to be hexadecimal
+			// digits (the lead bytes are chosen to make it so): whichever way a
+			// reader takes it, it has to take it the same way under every delivery
+			r := uint16(55665)
+			for i := range iv {
+				c := "0123456789abcdefABCDEF"[t.Choose(22)]
+				iv[i] = c ^ byte(r>>8)
+				r = (uint16(c)+r)*52845 + 22719
+			}
+			cipher = EexecEncrypt(append(append([]byte{}, iv...), body...))
+			break
+		}
 		cipher = EexecEncrypt(append(append([]byte{}, iv...), body...))
 		if !binary {
 			break
